@@ -172,6 +172,12 @@ func (e *FuncEnc) callMods(x ssa.CallInstruction, li *loopInfo) {
 	case *ssa.MakeClosure:
 		callee = f.Fn.(*ssa.Function)
 	default:
+		if e.W != nil && e.W.InlineClosures {
+			if mc := e.resolveClosure(c.Value, 0); mc != nil {
+				callee = mc.Fn.(*ssa.Function)
+				break
+			}
+		}
 		kind := CallHavoc
 		if e.W != nil && e.W.DynamicPolicy != nil {
 			kind = e.W.DynamicPolicy(e, x, "func:"+shortType(c.Value.Type()))
